@@ -54,7 +54,9 @@ func Parse(yangfiles, path []string) (map[string]*yang.Entry, []error) {
 
 	entries := make(map[string]*yang.Entry)
 	for _, m := range ms.Modules {
-		e := yang.ToEntry(m)
+		// A module is filed under its bare name and under name@revision;
+		// the bare name holds the latest revision.
+		e := yang.ToEntry(ms.Modules[m.Name])
 		entries[e.Name] = e
 	}
 
